@@ -17,3 +17,5 @@ for c in "$@"; do
   MOLLI_REPO=$d timeout 1200 /verif/check $c 2>&1 | tail -4
 done
 rm -rf $d
+# restore Gen/ snapshots and evidence to the /repo state
+for c in "$@"; do timeout 1500 /verif/check $c >/dev/null 2>&1; echo "restored $c on /repo: rc=$?"; done
